@@ -170,7 +170,7 @@ class Exec:
             depth = 0
             for i, ch in enumerate(inner):
                 if ch in '([<{': depth += 1
-                elif ch in ')]>}': depth -= 1
+                elif ch in ')]}' or (ch == '>' and inner[i - 1] != '-'): depth -= 1
                 elif ch == '.' and depth == 0:
                     mm = re.match(r'\.(\d+): ', inner[i:])
                     if mm: return ('field', s._parse_place(inner[:i]), int(mm.group(1)))
@@ -369,11 +369,13 @@ class Exec:
     def split_args(t):
         parts, depth, cur = [], 0, ''
         instr = False
+        prev = ''
         for ch in t:
             if ch == '"': instr = not instr
             if not instr:
                 if ch in '([{<': depth += 1
-                if ch in ')]}>': depth -= 1
+                if ch in ')]}' or (ch == '>' and prev != '-'): depth -= 1
+            prev = ch
             if ch == ',' and depth == 0 and not instr: parts.append(cur); cur = ''
             else: cur += ch
         if cur.strip(): parts.append(cur)
